@@ -79,7 +79,7 @@ Definition dec_indices (bs : list N) : option (list Z * list N) :=
         | None => None
         end
       else
-        match chunks (Z.to_nat len) (wbytes w) r with
+        match chunks (znat (S (length r)) len) (wbytes w) r with
         | Some (xs, r') =>
           let l := map (dec_int w) xs in
           if all_nonneg l then Some (l, r') else None
@@ -96,7 +96,7 @@ Definition dec_str (bs : list N) : option (option str * list N) :=
   | Some (code, len, r) =>
     if code =? 7 then
       if len =? 0 then Some (None, r)
-      else match take (Z.to_nat len) r with
+      else match take (znat (S (length r)) len) r with
            | Some (x, r') => if utf8_valid x then Some (Some x, r') else None
            | None => None
            end
@@ -184,9 +184,9 @@ Definition dec_frame (bs : list N) : option (list N * list N * list N) :=
     if le_val a =? 0 then None
     else match take 4 r1 with
     | Some (b, r2) =>
-      match take (Z.to_nat (le_val a)) r2 with
+      match take (znat (S (length r2)) (le_val a)) r2 with
       | Some (sb, r3) =>
-        match take (Z.to_nat (le_val b)) r3 with
+        match take (znat (S (length r3)) (le_val b)) r3 with
         | Some (ib, r4) => Some (sb, ib, r4)
         | None => None
         end
@@ -229,7 +229,7 @@ Fixpoint resolve_all (m : smap) (l : list Z) : option (list name) :=
   match l with
   | [] => Some []
   | i :: r =>
-    match get_index m (Z.to_nat i), resolve_all m r with
+    match get_index m (znat (length (entries m)) i), resolve_all m r with
     | Some n, Some ns => Some (n :: ns)
     | _, _ => None
     end
@@ -243,7 +243,7 @@ Definition dec_head (strings contigs : smap) (bs : list N) : option (head * list
     let chrom := dec_int W32 c in
     let pos := dec_int W32 p in
     if (chrom <? 0) || (pos <? -1) || (dec_int W32 l <? 0) then None
-    else match get_index contigs (Z.to_nat chrom) with
+    else match get_index contigs (znat (length (entries contigs)) chrom) with
     | None => None
     | Some cname =>
       match classify_f (le_val q) with
@@ -295,12 +295,12 @@ Definition dec_head (strings contigs : smap) (bs : list N) : option (head * list
 (* what decoder/value.rs read_value (mult = 1) and decoder/samples/values.rs read_values /
    read_genotype_values (mult = sample count) consume: the descriptor, then len entries of the
    type's width per sample *)
-Definition value_payload (code len : Z) : option nat :=
+Definition value_payload (cap : nat) (code len : Z) : option nat :=
   if code =? 0 then Some 0%nat
-  else if code =? 1 then Some (Z.to_nat len)
-  else if code =? 2 then Some (2 * Z.to_nat len)%nat
-  else if (code =? 3) || (code =? 5) then Some (4 * Z.to_nat len)%nat
-  else if code =? 7 then Some (Z.to_nat len)
+  else if code =? 1 then Some (znat cap len)
+  else if code =? 2 then Some (2 * znat cap len)%nat
+  else if (code =? 3) || (code =? 5) then Some (4 * znat cap len)%nat
+  else if code =? 7 then Some (znat cap len)
   else None.
 
 (* the typed value at the head of bs (descriptor + payload) and what follows it.  series = true:
@@ -310,7 +310,7 @@ Definition split_typed (series : bool) (mult : nat) (bs : list N) : option (list
   match read_type bs with
   | Some (code, len, r) =>
     if series && ((code =? 0) || ((len =? 0) && negb (code =? 7))) then None
-    else match value_payload code len with
+    else match value_payload (S (length r)) code len with
     | Some k =>
       match take (mult * k) r with
       | Some (_, r') => take (length bs - length r') bs
@@ -334,7 +334,7 @@ Fixpoint dec_fields (m : smap) (mult : nat) (dup : bool) (n : nat) (bs : list N)
   | S n' =>
     match dec_index bs with
     | Some (i, r) =>
-      match get_index m (Z.to_nat i) with
+      match get_index m (znat (length (entries m)) i) with
       | Some k =>
         match split_typed (negb dup) mult r with
         | Some (vb, r') =>
@@ -351,12 +351,14 @@ Fixpoint dec_fields (m : smap) (mult : nat) (dup : bool) (n : nat) (bs : list N)
   end.
 
 (* read_record_buf as a whole: the split, the site head, the INFO block, the FORMAT block *)
-Definition dec_record (strings contigs : smap) (bs : list N)
+Definition dec_record (strings contigs : smap) (hdr_samples : Z) (bs : list N)
   : option (head * list (name * list N) * list (name * list N) * list N) :=
   match dec_frame bs with
   | Some (sb, ib, rest) =>
     match dec_head strings contigs sb with
     | Some (h, info_bytes) =>
+      (* read_samples: n_sample may not exceed the header's sample count (InvalidSampleCount) *)
+      if hdr_samples <? h_n_sample h then None else
       match dec_fields strings 1 true (Z.to_nat (h_n_info h)) info_bytes with
       | Some (infos, _) =>
         match dec_fields strings (Z.to_nat (h_n_sample h)) false (Z.to_nat (h_n_fmt h)) ib with
